@@ -64,14 +64,18 @@ def _inputs(c):
     rng = random.Random(c['seedvals'])
     consts = {'k0': 3} if c['farmer'] else {}
     res = {'big': 'R'} if c['farmer'] else {}
+    # constants given at sow time take precedence over the farmer's stored ones (as in a direct run)
+    sow_consts = {}
+    if c['seedvals'] % 3 == 0: sow_consts = {'k0': 99} if c['farmer'] else {'k1': 7}
+    elif c['seedvals'] % 3 == 1 and c['farmer']: sow_consts = {'big': 'other', 'k2': 'x'}
     if c['kind'] == 'grid':
         names = common.ARG_NAMES[:len(c['shape'])]
         combos = {a: common.make_values(rng, k) for a, k in zip(names, c['shape'])}
-        return dict(combos=combos, cases=None, fn_args=None, consts=consts, res=res)
+        return dict(combos=combos, cases=None, fn_args=None, consts=consts, res=res, sow_consts=sow_consts)
     names = ['y', 'x']
     pool = list(itertools.product(range(-3, 40), range(0, 12)))
     cs = rng.sample(pool, c['n'])
-    return dict(combos=None, cases=[dict(zip(names, v)) for v in cs], fn_args=names, consts=consts, res=res)
+    return dict(combos=None, cases=[dict(zip(names, v)) for v in cs], fn_args=names, consts=consts, res=res, sow_consts=sow_consts)
 
 
 def _rec(**kw):
@@ -99,10 +103,10 @@ def run_real(c, ctx):
         try:
             with quiet():
                 if c['kind'] == 'grid':
-                    crop.sow_combos(inp['combos'], shuffle=(c['shuffle'] or False), verbosity=0, **skw)
+                    crop.sow_combos(inp['combos'], constants=inp['sow_consts'] or None, shuffle=(c['shuffle'] or False), verbosity=0, **skw)
                 else:
                     if c['shuffle']: crop.shuffle = c['shuffle']
-                    crop.sow_cases(inp['fn_args'], inp['cases'], verbosity=0, **skw)
+                    crop.sow_cases(inp['fn_args'], inp['cases'], constants=inp['sow_consts'] or None, verbosity=0, **skw)
         except Exception as e:
             return {'err': type(e).__name__}
         files = glob.glob(os.path.join(crop.location, 'batches', 'xyz-batch-*.jbdmp'))
@@ -120,17 +124,17 @@ def run_real(c, ctx):
         def recf(**kw):
             log.append(kw); return 0
         if c['kind'] == 'grid':
-            xyz.combo_runner(recf, inp['combos'], constants={**inp['res'], **inp['consts']}, verbosity=0)
+            xyz.combo_runner(recf, inp['combos'], constants={**inp['res'], **inp['consts'], **inp['sow_consts']}, verbosity=0)
         else:
             xyz.case_runner(recf, inp['fn_args'], [tuple(cs[a] for a in inp['fn_args']) for cs in inp['cases']],
-                            constants={**inp['res'], **inp['consts']}, verbosity=0)
+                            constants={**inp['res'], **inp['consts'], **inp['sow_consts']}, verbosity=0)
         # index of each setting in sow order (combos sorted by name, product order; cases in given order)
         if c['kind'] == 'grid':
             names = sorted(inp['combos'])
             enum = [dict(zip(names, p)) for p in itertools.product(*(inp['combos'][a] for a in names))]
         else:
             enum = [dict(cs) for cs in inp['cases']]
-        extra = {**inp['res'], **inp['consts']}
+        extra = {**inp['res'], **inp['consts'], **inp['sow_consts']}
         index = {common.kwkey({**e, **extra}): i for i, e in enumerate(enum)}
         bidx = [[index.get(common.kwkey(kw), -1) for kw in b] for b in batches]
         return {'ids': ids, 'batches': bidx, 'reported': rep, 'reloaded': rep2,
